@@ -572,11 +572,29 @@ def bare_scenarios(r, sid0):
     return out
 
 
-def record(scn):
-    if scn["family"] == "mix":
-        from harness.drivers import c06mix
-        return {"scn": scn, "case": c06mix.mix_case(scn, c06mix.run_mix(scn))}
-    return {"scn": scn, "case": scenario_case(scn, run_scenario(scn))}
+class ScenarioTimeout(SystemExit):
+    """(SystemExit: asyncio lets it through instead of storing it in whatever task happens to run)"""
+
+
+def record(scn, limit=900):
+    """run one scenario; a scenario that does not finish within `limit` seconds of REAL time (code under test
+    spinning without yielding: virtual time cannot advance) is a machinery failure, not a hang of the check"""
+    import signal
+
+    def on_alarm(*_):
+        raise ScenarioTimeout("scenario %s did not finish within %d s of real time" % (scn["sid"], limit))
+    old = signal.signal(signal.SIGALRM, on_alarm)
+    signal.alarm(limit)
+    try:
+        if scn["family"] == "mix":
+            from harness.drivers import c06mix
+            return {"scn": scn, "case": c06mix.mix_case(scn, c06mix.run_mix(scn))}
+        return {"scn": scn, "case": scenario_case(scn, run_scenario(scn))}
+    except ScenarioTimeout as ex:
+        raise RuntimeError("%s: %s" % (ex, json.dumps(scn)[:2000])) from None
+    finally:
+        signal.alarm(0)
+        signal.signal(signal.SIGALRM, old)
 
 
 def work_run(job):
@@ -880,7 +898,7 @@ def write_mc(ctx, quick):
                 "EXTENDS Integers\n"
                 "MaxSteps == %d\nMCEnv == %s\nCat == <<\n  %s\n>>\n"
                 "=============================================================================\n" % (
-                    5 if quick else 14, to_tla(small_env), ",\n  ".join(to_tla(e) for e in cat)))
+                    4 if quick else 14, to_tla(small_env), ",\n  ".join(to_tla(e) for e in cat)))
     return d, cat
 
 
@@ -1199,6 +1217,16 @@ def main(ctx):
         phases.append({"phase": name, "wall_s": round(time.time() - mark["t"], 1),
                        "cpu_children_s": round(c.ru_utime + c.ru_stime - mark["c"].ru_utime - mark["c"].ru_stime, 1)})
         mark["t"], mark["c"] = time.time(), c
+    # development switches (mutant / fix trials): VERIF_C06_PARTS=mc,next,run,active  VERIF_C06_SCALE=0.25
+    parts = set(os.environ.get("VERIF_C06_PARTS", "mc,next,run,active").split(","))
+    scale = float(os.environ.get("VERIF_C06_SCALE", "1"))
+    if parts != {"mc", "next", "run", "active"} or scale != 1:
+        ctx.cov["partial_run"] = {"parts": sorted(parts), "scale": scale}
+    # (M) runs beside everything else (TimeMC is the longest single step of the quick tier: started first)
+    pool = cf.ThreadPoolExecutor(max_workers=2)
+    mc_future = pool.submit(model_check, ctx) if "mc" in parts else None
+    loop_future = pool.submit(model_check_loop, ctx) if "mc" in parts else None
+    facts = {}
     # 0. the environment tables and the specification itself
     docs = doc_examples()
     rej = accept(ctx, env_cases() + docs, "env+docs", chunks=1)
@@ -1209,16 +1237,6 @@ def main(ctx):
         raise MachineryFailure("TimeSpec disagrees with the repository's documented examples: %s" % list(rej.values())[:3])
     ctx.cov["documented_examples_replayed"] = len(docs)
     phase("env+docs")
-    # development switches (mutant / fix trials): VERIF_C06_PARTS=mc,next,run,active  VERIF_C06_SCALE=0.25
-    parts = set(os.environ.get("VERIF_C06_PARTS", "mc,next,run,active").split(","))
-    scale = float(os.environ.get("VERIF_C06_SCALE", "1"))
-    if parts != {"mc", "next", "run", "active"} or scale != 1:
-        ctx.cov["partial_run"] = {"parts": sorted(parts), "scale": scale}
-    # (M) runs beside the recordings
-    pool = cf.ThreadPoolExecutor(max_workers=2)
-    mc_future = pool.submit(model_check, ctx) if "mc" in parts else None
-    loop_future = pool.submit(model_check_loop, ctx) if "mc" in parts else None
-    facts = {}
     # (T) recordings: three independent chains (record with worker processes, then let TLC judge), side by side
     def chain_next():
         if "next" not in parts:
